@@ -137,7 +137,10 @@ def apply_event(w, ev):
         w.trace.append(("do_render", writer, r))
     elif k == "setinfo":
         w.seq += 1
-        w.send(ev[1], "qsetinfo", jobid=jobid(ev[2]), info={"status": "s%d" % (w.seq % 2), "progress": w.seq % 2})
+        # the shapes a Status object sends: progress/article before the first status line, an empty status line, a full one
+        n = w.seq % 3
+        info = {"progress": 12 + n, "article": "Foo"} if n == 1 else {"status": "", "progress": 40} if n == 2 else {"status": "s%d" % (w.seq % 2), "progress": w.seq % 2}
+        w.send(ev[1], "qsetinfo", jobid=jobid(ev[2]), info=info)
     elif k == "finishr":
         w.seq += 1
         if ev[3] == "err":
